@@ -90,6 +90,22 @@ def random_increasing(seed: int):
     return Gamma(f"random({seed})", fn, None)
 
 
+def ulp_adjacent(base=0.5):
+    """neighbouring scores are neighbouring doubles (v -> base + v ulps, base a power of two): there is
+    NO float strictly between two neighbouring scores, so only on-score thresholds can be realised"""
+    u = math.ulp(base)
+    g = Gamma(f"ulp({base})", lambda v: base + v * u if v >= 0 else base + v * u / 2.0,
+              lambda x: (x - base) / u if x >= base else (x - base) / (u / 2.0))
+    mid = g.thr
+
+    def thr(t2, flavour="mid"):
+        if t2 % 2:
+            raise ValueError("no float between neighbouring doubles")
+        return mid(t2, flavour)
+    g.thr = thr
+    return g
+
+
 BIG = 2 ** 53
 
 
